@@ -40,8 +40,12 @@ def run(rep, tier, seed, replay=None):
     trusted = [
         'hand models Model/Leaf.v, Model/Root.v (compute_leaf_layout, compute_root_layout for a childless root), Model/BoxSizing.v '
         '(bs_resolve, to_border_box, minimum_contribution_axis): tied to the source by K (leaf/root), fingerprints and the oracle',
-        'the 13 container-level sites (block / flex / grid containers and their item lists, GridItem) are covered by the site-scan '
-        'obligation (every use adjusted, generated table) + the idiom theorem + the whole-tree oracle, not by a kernel theorem',
+        'the flex / grid container-level sites (containers, their item lists, GridItem) are covered by the site-scan obligation (every '
+        'use adjusted, generated table) + the idiom theorem + the whole-tree oracle, not by a kernel theorem: BoxSizingBlind is a premise '
+        'of C12_engine for them',
+        'the block sites (compute_block_layout / compute_inner / generate_item_list) are proved in Gallina on the hand models Model/Block.v '
+        '(C12_block_resolutions_blind) and composed through the engine skeleton for trees of block containers and leaves '
+        '(C12_block_engine_instance: Model/BlockAlg.v + Model/BlockEngine.v, exact-key memo; absolute pass = parameter abs_child)',
         'translator/gen_boxsizing.py classifies uses by their method chain (syntactic); a length read through an alias or helper '
         'function would be reported as RawCopy and break the obligation rather than be missed',
         'theorems are over exact rationals (XQ) up to xeq; over binary32 `l + pb` is exact for the dyadic lengths the oracle uses',
@@ -126,6 +130,9 @@ def run(rep, tier, seed, replay=None):
     rep.cov['samples'] += [{'case': c, 'impl': a, 'shape': describe(c)} for c, a in list(zip(cases, impl))[:2]]
     rep.cov['samples'].append({'theorem': 'C12_leaf : forall inputs st measure, eligible st -> measure_respects_xeq measure -> '
                                'result_xeq (compute_leaf_layout inputs (to_border_box st) measure) (compute_leaf_layout inputs st measure)'})
+    rep.cov['samples'].append({'theorem': 'C12_block_engine_rewritten_layouts : forall f t w i o t1, sk_all bn_ok t -> bl_memo block_pre '
+                               'abs_child_simple f (bl_fresh t) i = Some (o, t1) -> exists o\' t1\', bl_memo .. f (bl_fresh (sk_map_where '
+                               'bn_to_border_box w t)) i = Some (o\', t1\') /\\ bout_rel 1 o o\' /\\ Forall2 (blay_rel 1) (lays t1) (lays t1\')'})
     rep.cov['samples'].append({'theorem': 'C12_all_sites_adjust : forallb site_wellformed box_sizing_sites = true /\\ '
                                'submultiset (all_omissions box_sizing_sites) recorded_omissions = true'})
     if replay and 'case' in replay:
